@@ -91,6 +91,22 @@ func untagRaw(raw json.RawMessage) string {
 var sideRe = regexp.MustCompile(`\b(debug|stderr|input|inputs|input_filename|halt|halt_error|input_line_number)\b`)
 var inputRe = regexp.MustCompile(`\b(input|inputs|halt|halt_error|input_filename|input_line_number)\b`)
 
+// input/inputs deliver what fq decoded from the input files: decode values, whose behaviour under further jq processing is the
+// subject of C08.  C07 judges input/inputs only where their results go straight to the output: programs built from nothing but
+// input, inputs, array/comma/pipe/identity, first(..), limit(n; ..), literals.
+var identRe = regexp.MustCompile(`[A-Za-z_$][A-Za-z0-9_]*`)
+
+func inputStraightToOutput(p string) bool {
+	for _, id := range identRe.FindAllString(p, -1) {
+		switch id {
+		case "input", "inputs", "first", "limit", "empty", "null", "true", "false", "input_filename":
+		default:
+			return false
+		}
+	}
+	return !strings.ContainsAny(p, "+-*/%<>=?{}")
+}
+
 type event map[string]any
 
 type work struct {
@@ -324,6 +340,12 @@ func replay(cases []tcase, singleEvery int) []event {
 			continue
 		}
 		always := sideRe.MatchString(p)
+		if inputRe.MatchString(p) && !inputStraightToOutput(p) {
+			for _, i := range byProg[p] {
+				ws[i].ev["not_judged"] = "input results processed further (decode values: C08)"
+			}
+			continue
+		}
 		for k, i := range byProg[p] {
 			if always || (singleEvery > 0 && k == 0 && pi%singleEvery == int(kit.Seed())%singleEvery) {
 				n++
